@@ -1,5 +1,6 @@
 import Tup.Props.C07
 import Tup.Lemmas.PhSpace
+import Tup.Model.DisplayArgs
 /-!
   C14 — IDs are displayed using only the terminal features their ID space allows.
 
@@ -71,6 +72,70 @@ theorem display_decodes (t : Term) (s : Space) (p : Placeholder) (_hs : inSpace 
       (List.range (p.endCol - p.startCol)).map fun j => some ⟨p.imageId, p.placementId, row, p.startCol + j⟩ :=
   C07.line_decodes t p (displayMode fewer) (getFormattingT bg) row hp (by cases fewer <;> decide) hrow hsc
     (getFormattingT_bgOnly bg) hfit
+
+/-- **Argument handling reduces to the display model**: when `display_only` is given an integer, an `ImagePlaceholder` or an
+    `ImageInstance` with any overrides, and its argument handling resolves to the rectangle `r`, then with a non-negative
+    position and one of the four final-position names the call writes exactly the bytes of `displayOnly r` (to which
+    `display_decodes` and the feature theorems apply) and returns `r`; if `displayOnly r` refuses, so does the call. -/
+theorem displayCall_eq_displayOnly (cfg : FinalPos) (o : DispObj) (sc sr ec er : Option Int) (ae fewer : Bool) (bg : Background)
+    (pos : Option (Nat × Nat)) (lf : Bool) (fp : FinalPos) (r : RawPlaceholder) (h : resolveArgs o sc sr ec er ae = some r) :
+    (∀ b, displayOnly r fewer bg pos lf fp = .ok b →
+      displayCall false cfg o sc sr ec er ae fewer bg (pos.map fun q => ((q.1 : Int), (q.2 : Int))) lf (.named fp) = ⟨.ok (), b, some r⟩) ∧
+    (∀ e, displayOnly r fewer bg pos lf fp = .error e →
+      (displayCall false cfg o sc sr ec er ae fewer bg (pos.map fun q => ((q.1 : Int), (q.2 : Int))) lf (.named fp)).status = .error e) := by
+  cases pos with
+  | none =>
+    simp only [displayCall, h, displayOnly, Option.map_none]
+    cases toStream r none (displayMode fewer) (getFormatting bg) true lf with
+    | error e => simp [DisplayOutcome.refused]
+    | ok b =>
+      cases finalCursorToks (r.endCol - r.startCol).toNat (r.endRow - r.startRow).toNat fp lf with
+      | none => simp
+      | some t => simp
+  | some q =>
+    obtain ⟨px, py⟩ := q
+    have hx : ¬ ((px : Int) < 0 ∨ (py : Int) < 0) := by omega
+    simp only [displayCall, h, displayOnly, Option.map_some, toStream]
+    cases lf with
+    | true => simp [DisplayOutcome.refused]
+    | false =>
+      simp only [Bool.false_eq_true, if_false, hx, Int.toNat_natCast]
+      cases toStreamAbs r px py (displayMode fewer) (getFormatting bg) with
+      | error e => simp [DisplayOutcome.refused]
+      | ok b =>
+        cases finalCursorToks (r.endCol - r.startCol).toNat (r.endRow - r.startRow).toNat fp false with
+        | none => simp
+        | some t => simp
+
+/-- **`allow_expansion=False` never prints past the object's own rectangle end**: the call is refused for an integer id;
+    for an `ImagePlaceholder` / `ImageInstance` the printed end column (row) is the requested one when that lies inside the
+    object's own end, and the object's own end otherwise. -/
+theorem no_expansion_clips (o : DispObj) (sc sr ec er : Option Int) (r : RawPlaceholder)
+    (h : resolveArgs o sc sr ec er false = some r) :
+    ∃ oc orow, o.ownEnd = some (oc, orow) ∧ r.endCol ≤ oc ∧ r.endRow ≤ orow ∧
+      (r.endCol = oc ∨ r.endCol = pyOr ec oc) ∧ (r.endRow = orow ∨ r.endRow = pyOr er orow) := by
+  cases o with
+  | int id =>
+    simp only [resolveArgs] at h
+    split at h <;> simp at h
+  | ph p =>
+    simp only [resolveArgs, Bool.false_eq_true, if_false, Option.some.injEq] at h
+    subst h
+    refine ⟨p.endCol, p.endRow, rfl, ?_⟩
+    simp only [Int.min_def]
+    refine ⟨?_, ?_, ?_, ?_⟩ <;> split <;> omega
+  | inst id cols rows =>
+    simp only [resolveArgs, Bool.false_eq_true, if_false, Option.some.injEq] at h
+    subst h
+    refine ⟨cols, rows, rfl, ?_⟩
+    simp only [Int.min_def]
+    refine ⟨?_, ?_, ?_, ?_⟩ <;> split <;> omega
+
+/-- non-vacuity of the two statements above: a 5x3 instance cropped to 3 columns (the CLI's `list` does this), and an
+    integer id with `allow_expansion=False` refused -/
+example : resolveArgs (.inst 7 5 3) none none (some 3) (some 9) false = some ⟨7, 0, 0, 0, 3, 3⟩ ∧
+    resolveArgs (.int 7) none none (some 3) (some 9) false = none ∧
+    resolveArgs (.ph ⟨7, 1, 2, 1, 6, 4⟩) (some 0) none (some 9) none true = some ⟨7, 1, 2, 1, 9, 4⟩ := by decide
 
 /-- non-vacuity: an ID of each of the five spaces -/
 example : inSpace ⟨0, true⟩ 0x05000000 = true ∧ inSpace ⟨8, true⟩ 0x05000007 = true ∧ inSpace ⟨24, true⟩ 0x05010007 = true ∧
